@@ -1,13 +1,17 @@
 import Dcg.Model.Infer
 import Dcg.Proofs.Infer
+import Dcg.Proofs.InferCompose
 /-
 C16 — a model inferred from sample data accepts that sample.
 Only property theorems live here; helper lemmas are in Dcg/Proofs/Infer.lean.
 `Model.Infer.add/infer` transliterate genson's `SchemaNode.add_object` (what `generate()` runs on
 raw JSON / YAML / dict / CSV input); `validL` is JSON-Schema validity for the schema shapes inference
 produces. Agreement of both with genson / jsonschema is tested on every run (vlib/props/c16.py).
-What is proved is the first stage of the chain (the inferred schema accepts the sample); the later
-stages (schema → model → pydantic validation, wire names) are covered by the end-to-end oracle.
+Section "the whole chain" composes this first stage with C03's models of the later stages
+(`Sem.Schema.validJ`, `Model.Translate.tr`, `Sem.Pyd.acceptsTy`) through `Model.InferBridge`:
+the classes generated from the inferred schema do not reject the sample. Class and member NAMES and
+the wire names of `model_dump(by_alias)` are not part of those models (C06/C07): for them the property
+rests on the end-to-end oracle of vlib/props/c16.py.
 -/
 namespace Dcg.Props.C16
 open Dcg.Sem.JsonLite Dcg.Model.Infer Dcg.Proofs.Infer
@@ -65,5 +69,121 @@ theorem empty_array_unconstrained (ys : List Json) : validL (infer (.arr [])) (.
     | cons y ys ih => simp [validList, h y, ih]
   simp [infer, add, Node.empty, validL, Node.arr, addList]
   exact Or.inr (hl ys)
+
+
+/-! ## The whole chain: document → inferred schema → schema parser → pydantic classes
+
+Objects (see Dcg/Model/InferBridge.lean, Dcg/Proofs/InferCompose.lean):
+* `w : Sem.Json`              the document, numbers as decimals (C03's value type)
+* `toLite w`                  the document as inference sees it (`int` / `float`)
+* `toSchemaRoot (infer …)`    `to_schema()` of the inferred node read as a `Sem.Schema` (whole document);
+                              `toSchema` in a nested place
+* `tr st o .top …`            stage 1 of the generator (C03), `acceptsTy` pydantic's verdict (C03, trusted)
+The bridge is tied to the code on every run: `toSchema(Root) (infer v)` against the JSON-Schema text
+`generate()` hands to `JsonSchemaParser` for JSON / YAML / dict input, `tr (toSchemaRoot (infer v))`
+against the IR the real parser builds from that text, and the model's verdict on the sample against
+the exec'd classes (vlib/props/c16_bridge.py). -/
+
+section chain
+open Dcg.Sem Dcg.Sem.Pyd Dcg.Model.Translate Dcg.Model.InferBridge Dcg.Model.Constraints
+open Dcg.Proofs.InferBridge Dcg.Proofs.InferCompose
+
+/-- (b) EVERY inferred schema lies inside the subset of JSON Schema that C03's theorem covers
+(`InSubset`: only the keywords of its type at a scalar, distinct property names, `required` naming
+declared properties) — also for documents with repeated keys, heterogeneous arrays, arrays of arrays
+of objects: inference keeps one node per property name (`upsert`), takes `required` from the keys,
+and writes no bounds. No inferred shape falls outside. -/
+theorem inferred_schema_in_subset (v : LJson) :
+    (toSchemaRoot (infer v)).inSubset = true ∧ (toSchema (infer v)).inSubset = true :=
+  ⟨toSchemaRoot_inSubset _ (infer_wf v), toSchema_inSubset _ (infer_wf v)⟩
+
+/-- (b) the sample is valid under the bridged schema in C03's sense of JSON-Schema validity, with
+`fuel n` = 3 per nesting level of the inferred node (alternatives, container, leaf) and with any
+larger fuel. Together with `infer_valid`: `validL` and `validJ ∘ toSchema` agree on the sample. -/
+theorem sample_valid_bridged (re : Regex) (w : SJson) (f : Nat) (hf : fuel (infer (toLite w)) ≤ f) :
+    validJ re f [] (toSchemaRoot (infer (toLite w))) w = true :=
+  valid_bridge_root re f _ w (infer_wf _) hf (infer_valid _)
+
+/-- the region the composed statement is claimed for: everything for pydantic-v2 output; for
+pydantic-v1 output every document whose inferred schema has no member / item that is exactly
+`null | array of null` (rendered `Optional[List[None]]`) -/
+def covered : Style → Node → Bool
+  | .v2, _ => true
+  | .v1, n => v1Safe n
+
+/-- FULL STRENGTH (kept visible): for both output styles, every option vector, every regex oracle,
+every amount of fuel and EVERY JSON document `w`: the root class generated from the schema inferred
+from `w` does not reject `w`.
+Status: provable about the MODELS (`Proofs.InferCompose.sample_accepted_model_root`), but FALSE of
+the code for `st = .v1`: pydantic v1 refuses `None` for a member annotated `Optional[List[None]]`
+(known finding C16-v1-list-of-none, witness `{"k1": [[null], null]}`, replayed on every run), a
+behaviour `Sem.Pyd` (trusted, C03) does not model. Hence the claim about the generator is
+`sample_accepted_partial` on `covered`; `v1_excluded_witness` shows where the witness lies. -/
+def SampleAccepted : Prop :=
+  ∀ (st : Style) (o : Opts) (re : Regex) (g : Nat) (w : SJson),
+    acceptsTy st re g [] (tr st o .top (toSchemaRoot (infer (toLite w)))) w ≠ .reject
+
+/-- (c) PARTIAL, unbounded in depth, width and key sets: on `covered` the root class generated from
+the inferred schema does not reject the document it was inferred from — both styles, all three
+constraint routings, any fuel. Composition of `infer_valid` (stage 1), `valid_bridge`
+(validL ⇒ validJ ∘ toSchema), `inferred_schema_in_subset` and C03's `valid_accepted_partial`. -/
+theorem sample_accepted_partial (st : Style) (o : Opts) (re : Regex) (g : Nat) (w : SJson)
+    (_h : covered st (infer (toLite w)) = true) :
+    acceptsTy st re g [] (tr st o .top (toSchemaRoot (infer (toLite w)))) w ≠ .reject :=
+  sample_accepted_model_root st o re g w
+
+/-- FULL STRENGTH for pydantic-v2 output: every JSON document. -/
+theorem sample_accepted_v2 (o : Opts) (re : Regex) (g : Nat) (w : SJson) :
+    acceptsTy .v2 re g [] (tr .v2 o .top (toSchemaRoot (infer (toLite w)))) w ≠ .reject :=
+  sample_accepted_partial .v2 o re g w rfl
+
+/-- the same starting from a document as inference sees it (`JsonLite`): `toJson v` is a document
+that inference reads as `v` (`toLite (toJson v) = v`) -/
+theorem sample_accepted (st : Style) (o : Opts) (re : Regex) (g : Nat) (v : LJson)
+    (h : covered st (infer v) = true) :
+    acceptsTy st re g [] (tr st o .top (toSchemaRoot (infer v))) (toJson v) ≠ .reject := by
+  have := sample_accepted_partial st o re g (toJson v) (by rw [toLite_toJson]; exact h)
+  rwa [toLite_toJson] at this
+
+/-- … and in every nested place (`ctx`): a member, an array item, a union alternative -/
+theorem sample_accepted_nested (st : Style) (o : Opts) (re : Regex) (g : Nat) (ctx : Ctx) (w : SJson)
+    (_h : covered st (infer (toLite w)) = true) :
+    acceptsTy st re g [] (tr st o ctx (toSchema (infer (toLite w)))) w ≠ .reject :=
+  sample_accepted_model st o re g ctx w
+
+/-- the document of the corpus: heterogeneous array (numbers of either kind, null, objects with
+different key sets, an empty array), empty containers, nested arrays, a float with integral value -/
+def demoDoc : SJson :=
+  .obj [("a".toList, .arr [.num ⟨1, 0⟩, .num ⟨25, 1⟩, .null, .obj [("k".toList, .num ⟨1, 0⟩)],
+                          .obj [("k".toList, .str "s".toList), ("j".toList, .arr [])]]),
+        ("b".toList, .arr []), ("c".toList, .obj []),
+        ("d".toList, .arr [.arr [.num ⟨1, 0⟩, .num ⟨2, 0⟩], .arr [.num ⟨3, 0⟩]]),
+        ("e".toList, .null), ("f".toList, .num ⟨10, 1⟩)]
+
+/-- non-vacuity: the hypotheses hold for a non-trivial document, the conclusion is the strong one
+(`accept`) for both styles, and the classes do reject a document of another shape -/
+example : covered .v1 (infer (toLite demoDoc)) = true ∧
+    validJ (fun _ _ => true) (fuel (infer (toLite demoDoc))) [] (toSchemaRoot (infer (toLite demoDoc))) demoDoc = true ∧
+    acceptsTy .v1 (fun _ _ => true) 20 [] (tr .v1 {} .top (toSchemaRoot (infer (toLite demoDoc)))) demoDoc = .accept ∧
+    acceptsTy .v2 (fun _ _ => true) 20 [] (tr .v2 { fieldConstraints := true } .top (toSchemaRoot (infer (toLite demoDoc)))) demoDoc = .accept ∧
+    acceptsTy .v2 (fun _ _ => true) 20 [] (tr .v2 {} .top (toSchemaRoot (infer (toLite demoDoc))))
+      (.obj [("a".toList, .arr [.arr []])]) = .reject := by
+  decide +kernel
+
+/-- the witness of known finding C16-v1-list-of-none -/
+def listOfNoneDoc : SJson := .obj [("k1".toList, .arr [.arr [.null], .null])]
+
+/-- The refuting witness of the full statement for pydantic-v1 output lies in the excluded region, and
+only there does the model part company with the code: `Sem.Pyd` accepts the document (the IR is
+`List[Union[List[None], None]]`), the exec'd pydantic-v1 class rejects it (replayed by
+vlib/props/c16.py, `known_findings`). The other candidate, C16-v1-union-coercion, is no refutation
+of acceptance: model and code both accept (the finding is about the dumped keys). -/
+theorem v1_excluded_witness :
+    covered .v1 (infer (toLite listOfNoneDoc)) = false ∧ covered .v2 (infer (toLite listOfNoneDoc)) = true ∧
+    acceptsTy .v1 (fun _ _ => true) 20 [] (tr .v1 {} .top (toSchemaRoot (infer (toLite listOfNoneDoc)))) listOfNoneDoc
+      = .accept := by
+  decide +kernel
+
+end chain
 
 end Dcg.Props.C16
